@@ -28,7 +28,7 @@ open ZapVerif
 /-! ## values -/
 
 inductive Ty where
-  | u8 | u32 | u64 | int | i64
+  | u8 | u32 | u64 | int | i64 | i8 | i32
 deriving DecidableEq, Repr
 
 /-- the value of Go's fixed-width arithmetic: reduce `v` into the range of `t` -/
@@ -38,9 +38,11 @@ def wrap : Ty → Int → Int
   | .u64, v => v % 18446744073709551616
   | .int, v => (v + 9223372036854775808) % 18446744073709551616 - 9223372036854775808
   | .i64, v => (v + 9223372036854775808) % 18446744073709551616 - 9223372036854775808
+  | .i8, v => (v + 128) % 256 - 128
+  | .i32, v => (v + 2147483648) % 4294967296 - 2147483648
 
 def Ty.signed : Ty → Bool
-  | .int | .i64 => true
+  | .int | .i64 | .i8 | .i32 => true
   | _ => false
 
 inductive Val where
@@ -55,6 +57,9 @@ inductive Panic where
   | slice      -- slice bounds out of range
   | divide     -- integer divide by zero
 deriving DecidableEq, Repr
+
+/-- diagnostic text of a `stuck` outcome (a plain function, so that proofs never compute with strings) -/
+def msg (what name : String) : String := what ++ " " ++ name
 
 /-- result of evaluating an expression -/
 inductive Res (α : Type) where
@@ -177,18 +182,27 @@ def lastIndexByte (bs : Bytes) (c : UInt8) : Int :=
   | some i => (bs.length - 1 - i : Nat)
   | none => -1
 
-def builtin : String → List Val → Option Val
-  | "min", [.int a, .int b] => some (.int (min a b))
-  | "max", [.int a, .int b] => some (.int (max a b))
-  | "bytes.IndexByte", [.bytes s, .int c] => some (.int (indexByte s (UInt8.ofNat c.toNat)))
-  | "strings.IndexByte", [.bytes s, .int c] => some (.int (indexByte s (UInt8.ofNat c.toNat)))
-  | "strings.LastIndexByte", [.bytes s, .int c] => some (.int (lastIndexByte s (UInt8.ofNat c.toNat)))
-  | "append", [.bytes s, .int c] => some (.bytes (s ++ [UInt8.ofNat c.toNat]))      -- append(s, c)
-  | "append", [.list s, v] => some (.list (s ++ [v]))
-  | "append...", [.bytes s, .bytes t] => some (.bytes (s ++ t))                      -- append(s, t...)
-  | "append...", [.list s, .list t] => some (.list (s ++ t))
-  | "bytes", [.bytes s] => some (.bytes s)                                           -- []byte(s), string(b)
-  | _, _ => none
+def appendVal : List Val → Option Val
+  | [.bytes s, .int c] => some (.bytes (s ++ [UInt8.ofNat c.toNat]))      -- append(s, c)
+  | [.list s, v] => some (.list (s ++ [v]))
+  | _ => none
+
+def appendAll : List Val → Option Val
+  | [.bytes s, .bytes t] => some (.bytes (s ++ t))                         -- append(s, t...)
+  | [.list s, .list t] => some (.list (s ++ t))
+  | _ => none
+
+/-- dispatch on the name first: a name that is not a builtin is `none` whatever the arguments -/
+def builtin (f : String) (args : List Val) : Option Val :=
+  if f = "min" then (match args with | [.int a, .int b] => some (.int (min a b)) | _ => none)
+  else if f = "max" then (match args with | [.int a, .int b] => some (.int (max a b)) | _ => none)
+  else if f = "bytes.IndexByte" ∨ f = "strings.IndexByte" then
+    (match args with | [.bytes s, .int c] => some (.int (indexByte s (UInt8.ofNat c.toNat))) | _ => none)
+  else if f = "strings.LastIndexByte" then
+    (match args with | [.bytes s, .int c] => some (.int (lastIndexByte s (UInt8.ofNat c.toNat))) | _ => none)
+  else if f = "append" then appendVal args
+  else if f = "append..." then appendAll args
+  else none
 
 /-! ## expressions -/
 
@@ -263,23 +277,23 @@ def callVal (X : Ctx) (f : String) (args : List Val) : Res Val :=
   | none =>
     match X.ext f args with
     | some [v] => .ok v
-    | _ => .stuck ("call " ++ f)
+    | _ => .stuck (msg "call" f)
 
 mutual
 def evalE (X : Ctx) (σ : State) : Expr → Res Val
   | .lit v => .ok v
-  | .loc x => match σ.loc.get x with | some v => .ok v | none => .stuck ("unset local " ++ x)
-  | .fld x => match σ.fld.get x with | some v => .ok v | none => .stuck ("unset field " ++ x)
+  | .loc x => match σ.loc.get x with | some v => .ok v | none => .stuck (msg "unset local" x)
+  | .fld x => match σ.fld.get x with | some v => .ok v | none => .stuck (msg "unset field" x)
   | .un op e => (evalE X σ e).bind (evalUn op)
   | .bin op a b => (evalE X σ a).bind fun va => (evalE X σ b).bind fun vb => evalBin op va vb
   | .and a b => (evalE X σ a).bind fun
-    | .bool true => (evalE X σ b).bind fun | .bool r => .ok (.bool r) | _ => .stuck "&& operand"
+    | .bool true => (evalE X σ b).bind fun | .bool r => .ok (.bool r) | _ => .stuck "operand"
     | .bool false => .ok (.bool false)
-    | _ => .stuck "&& operand"
+    | _ => .stuck "operand"
   | .or a b => (evalE X σ a).bind fun
-    | .bool false => (evalE X σ b).bind fun | .bool r => .ok (.bool r) | _ => .stuck "|| operand"
+    | .bool false => (evalE X σ b).bind fun | .bool r => .ok (.bool r) | _ => .stuck "operand"
     | .bool true => .ok (.bool true)
-    | _ => .stuck "|| operand"
+    | _ => .stuck "operand"
   | .conv t e => (evalE X σ e).bind fun v => (asInt v).bind fun i => .ok (.int (wrap t i))
   | .len e => (evalE X σ e).bind lenVal
   | .index a i => (evalE X σ a).bind fun va => (evalE X σ i).bind fun vi => indexVal va vi
@@ -352,8 +366,8 @@ def execS (X : Ctx) (rec : Stmt → State → Out) : Stmt → State → Out
     match evalEs X σ args with
     | .ok vs =>
       match X.ext f vs with
-      | some rs => match σ.assign lhs rs with | some σ' => .normal σ' | none => .stuck ("result arity of " ++ f)
-      | none => .stuck ("intrinsic " ++ f)
+      | some rs => match σ.assign lhs rs with | some σ' => .normal σ' | none => .stuck (msg "result arity of" f)
+      | none => .stuck (msg "intrinsic" f)
     | .panic p => .panic p
     | .stuck w => .stuck w
   | .call lhs f args, σ =>
@@ -366,13 +380,13 @@ def execS (X : Ctx) (rec : Stmt → State → Out) : Stmt → State → Out
           | .ret rs σ' =>
             match ({ σ with fld := σ'.fld } : State).assign lhs rs with
             | some σ'' => .normal σ''
-            | none => .stuck ("result arity of " ++ f)
-          | .normal σ' => if lhs.isEmpty then .normal { σ with fld := σ'.fld } else .stuck ("missing return in " ++ f)
+            | none => .stuck (msg "result arity of" f)
+          | .normal σ' => if lhs.isEmpty then .normal { σ with fld := σ'.fld } else .stuck (msg "missing return in" f)
           | .brk _ => .stuck "break outside loop"
           | .cont _ => .stuck "continue outside loop"
           | o => o
-        else .stuck ("argument arity of " ++ f)
-      | none => .stuck ("unknown function " ++ f)
+        else .stuck (msg "argument arity of" f)
+      | none => .stuck (msg "unknown function" f)
     | .panic p => .panic p
     | .stuck w => .stuck w
   | .ite c t e, σ =>
@@ -446,7 +460,7 @@ inductive Ran where
     returns its named results (none for a function without results). -/
 def run (X : Ctx) (fuel : Nat) (f : String) (args : List Val) (fld : Env) : Ran :=
   match X.funs f with
-  | none => .stuck ("unknown function " ++ f)
+  | none => .stuck (msg "unknown function" f)
   | some fn =>
     if fn.params.length = args.length then
       match exec X fuel fn.body { loc := fn.params.zip args ++ fn.named, fld := fld } with
@@ -457,6 +471,6 @@ def run (X : Ctx) (fuel : Nat) (f : String) (args : List Val) (fld : Env) : Ran 
       | .oof => .oof
       | .brk _ => .stuck "break outside loop"
       | .cont _ => .stuck "continue outside loop"
-    else .stuck ("argument arity of " ++ f)
+    else .stuck (msg "argument arity of" f)
 
 end ZapVerif.GoMini
